@@ -2,9 +2,12 @@ package trcheck
 
 import (
 	"fmt"
+	"os"
+	"strings"
 	"testing"
 
 	"verif/harness/mbt"
+	"verif/harness/props/trsrc"
 )
 
 // TestDump prints the vectors LLVM rejects (development aid: go test -run TestDump -tags verif).
@@ -14,6 +17,66 @@ func TestDump(t *testing.T) {
 	for _, c := range Run(vs) {
 		if !c.LLVMOK {
 			fmt.Printf("---- LLVM rejects: %s\n%s\n", c.LLVMDiag, c.Text)
+		}
+	}
+}
+
+// TestVectors judges a vectors.ndjson file written by a hand-run TLC (VECTORS=<path>): LLVM's verdict
+// against the model's, the parser's against both.
+func TestVectors(t *testing.T) {
+	path := os.Getenv("VECTORS")
+	if path == "" {
+		t.Skip()
+	}
+	vs, err := mbt.ReadNDJSON[trsrc.Vector](path)
+	if err != nil {
+		t.Fatal(err)
+	}
+	seen := map[string]bool{}
+	var us []trsrc.Vector
+	for _, v := range vs {
+		if k := trsrc.VecKey(v); !seen[k] {
+			seen[k] = true
+			us = append(us, v)
+		}
+	}
+	n := map[string]int{}
+	for _, c := range Run(us) {
+		llvm := "err"
+		if c.LLVMOK {
+			llvm = "ok"
+		}
+		real := "err"
+		if c.Panic != "" {
+			real = "panic"
+		} else if c.Err == nil {
+			real = "ok"
+		}
+		n["want="+c.Want.St+" llvm="+llvm+" real="+real]++
+		if c.Want.St != llvm || real != c.Want.St {
+			fmt.Printf("---- lay=%s want=%s llvm=%s (%s) real=%s (%v %s)\n%s\n", c.Lay.ID, c.Want.St, llvm, strings.ReplaceAll(mbt.Truncate(c.LLVMDiag, 150), "\n", " "), real, c.Err, mbt.Truncate(c.Panic, 100), c.Text)
+		} else if c.Want.St == "ok" {
+			for _, d := range CompareOrder(c.Want.Mod, c.Parsed, c.Printed) {
+				fmt.Printf("---- lay=%s ORDER %s\n%s\n", c.Lay.ID, d, c.Text)
+			}
+		}
+	}
+	fmt.Println(n)
+}
+
+// TestShow prints the rendering of the vectors whose text contains SHOW (VECTORS=<path>).
+func TestShow(t *testing.T) {
+	path := os.Getenv("VECTORS")
+	if path == "" || os.Getenv("SHOW") == "" {
+		t.Skip()
+	}
+	vs, _ := mbt.ReadNDJSON[trsrc.Vector](path)
+	seen := map[string]bool{}
+	for _, v := range vs {
+		k := trsrc.VecKey(v)
+		if !seen[k] && strings.Contains(k, os.Getenv("SHOW")) && (os.Getenv("LAY") == "" || v.Lay.ID == os.Getenv("LAY")) {
+			seen[k] = true
+			fmt.Printf("==== lay=%s want=%s\n%q\n", v.Lay.ID, v.Want.St, k)
 		}
 	}
 }
